@@ -186,6 +186,16 @@ func (c *Conn) Send(b []byte) error {
 	return c.WriteRaw(ct)
 }
 
+// SendOneFrame seals b as ONE frame whatever its length (up to 65535 bytes; the specification allows 1024) and
+// writes it: a peer that does not respect the frame size.
+func (c *Conn) SendOneFrame(b []byte) error {
+	if !c.secure {
+		return c.WriteRaw(b)
+	}
+	c.FramesOut++
+	return c.WriteRaw(c.wr.SealFrame(b))
+}
+
 // BuildRequest renders an HTTP/1.1 request as HAP controllers send it.
 func BuildRequest(method, target, contentType string, body []byte) []byte {
 	var b bytes.Buffer
